@@ -252,6 +252,9 @@ class Executor:
 
     def rvalue(self, path, r):
         r = r.strip()
+        m = re.match(r"^((?:copy|move|const) .+) as (.+?) \((\w+)\)$", r)
+        if m and balanced(m.group(1)):
+            return ("op", "cast:" + m.group(3), (self.operand(path, m.group(1)),))
         if r.startswith("copy ") or r.startswith("move ") or r.startswith("const "):
             return self.operand(path, r)
         m = re.match(r"^&(?:mut |raw const |raw mut )?(.+)$", r)
@@ -260,8 +263,10 @@ class Executor:
         m = re.match(r"^discriminant\((.+)\)$", r)
         if m:
             v = self.read_place(path, m.group(1))
-            if v[0] == "agg" and v[1].startswith("variant:"):
-                return ("c", int(v[1].split(":")[2]))
+            if v[0] == "agg":
+                for suf, d in (("::Ok", 0), ("::Err", 1), ("::None", 0), ("::Some", 1)):
+                    if v[1].endswith(suf):
+                        return ("c", d)
             return ("disc", v)
         m = re.match(r"^(\w+)\((.*)\)$", r)
         if m and m.group(1) in BINOPS | UNOPS | {"AddWithOverflow", "SubWithOverflow",
@@ -276,22 +281,22 @@ class Executor:
             return ("agg", "tuple", tuple(self.operand(path, a) for a in split_top(m.group(1))))
         if r == "()":
             return ("agg", "tuple", ())
-        m = re.match(r"^([\w:<>' ,&]+?)\s*\{(.*)\}$", r)
+        m = re.match(r"^([\w:<>' ,&]+?|\{closure@[^}]*\}|\{coroutine@[^}]*\})\s*\{(.*)\}$", r)
         if m:
             fields = []
             for a in split_top(m.group(2)):
                 if ":" in a:
                     fields.append(self.operand(path, a.split(":", 1)[1]))
             return ("agg", "struct:" + m.group(1).strip(), tuple(fields))
-        m = re.match(r"^([\w:<>' ,&]+?)\((.*)\)$", r)
-        if m:
-            return ("agg", "ctor:" + m.group(1).strip(),
-                    tuple(self.operand(path, a) for a in split_top(m.group(2))))
+        if r.endswith(")") and not r.startswith("("):
+            _d, head, args = split_call(r)
+            return ("agg", "ctor:" + head.strip(),
+                    tuple(self.operand(path, a) for a in split_top(args)))
         m = re.match(r"^\[(.*)\]$", r)
         if m:
             return ("agg", "array", tuple(self.operand(path, a) for a in split_top(
                 m.group(1).replace(";", ","))))
-        if re.match(r"^[\w:<>' ,&]+$", r):
+        if re.match(r"^[\w:<>' ,&()\[\];]+$", r) and "::" in r:
             return ("agg", "unit:" + r, ())
         raise Unsupported("rvalue: " + r)
 
@@ -378,9 +383,11 @@ class Executor:
                         continue
                     self._go(tgt, p2, depth)
                 return
-            m = re.match(r"^(?:(.+?) = )?(.+?)\((.*)\) -> \[return: (bb\d+)(?:, unwind.*)?\];$", t)
+            m = re.match(r"^(.*\)) -> \[return: (bb\d+)(?:, unwind.*)?\];$", t)
             if m:
-                dst, fn, args, ret = m.groups()
+                ret = m.group(2)
+                dst, fn, args = split_call(m.group(1))
+                fn = strip_turbofish(fn)
                 argv = tuple(self.operand(path, a) for a in split_top(args)) if args.strip() else ()
                 path.ncalls += 1
                 res = ("app", fn.strip(), argv, path.ncalls)
@@ -393,10 +400,10 @@ class Executor:
                     self.assign_local_or_place(path, dst, res)
                 bb = ret
                 continue
-            m = re.match(r"^(?:(.+?) = )?(.+?)\((.*)\) -> (?:unwind .*|\[unwind.*\]);$", t)
+            m = re.match(r"^(.*\)) -> (?:unwind .*|\[unwind.*\]);$", t)
             if m:
                 # diverging call (panic, todo!, unreachable!)
-                path.events.append(("call", m.group(2).strip(), (), None))
+                path.events.append(("call", split_call(m.group(1))[1].strip(), (), None))
                 return self._finish(path, "diverge")
             raise Unsupported("terminator: " + t)
 
@@ -424,6 +431,49 @@ class Executor:
         dst, rv = m.group(1), m.group(2)
         val = self.rvalue(path, rv)
         self.assign_local_or_place(path, dst, val)
+
+
+def strip_turbofish(fn):
+    """f::<T, U> -> f (generic instantiation suffix of the called path)"""
+    fn = fn.strip()
+    if fn.endswith(">"):
+        depth = 0
+        for i in range(len(fn) - 1, -1, -1):
+            if fn[i] == ">" and fn[i - 1:i] != "-":
+                depth += 1
+            elif fn[i] == "<":
+                depth -= 1
+                if depth == 0:
+                    if fn[:i].endswith("::") and not fn[:i].endswith(">::") or fn[:i].endswith("::"):
+                        head = fn[:i - 2]
+                        # only a trailing turbofish, not `<T as Trait>::f`
+                        if head and not head.endswith(">") or "::" in head:
+                            return head
+                    break
+    return fn
+
+
+def split_call(text):
+    """`dst = path::to::<T as Tr<(A, B)>>::f(args)` -> (dst|None, fn path, args text)"""
+    text = text.strip()
+    assert text.endswith(")")
+    depth = 0
+    i = len(text) - 1
+    while i >= 0:
+        c = text[i]
+        if c == ")":
+            depth += 1
+        elif c == "(":
+            depth -= 1
+            if depth == 0:
+                break
+        i -= 1
+    head, args = text[:i], text[i + 1:-1]
+    dst = None
+    m = re.match(r"^(\S.*?) = (.+)$", head)
+    if m and balanced(m.group(1)) and not m.group(1).startswith("<"):
+        dst, head = m.group(1), m.group(2)
+    return dst, head, args
 
 
 BINOPS = {"Add", "Sub", "Mul", "Div", "Rem", "BitAnd", "BitOr", "BitXor", "Shl", "Shr", "Eq", "Ne",
